@@ -492,6 +492,19 @@ def d1_schema(ctx):
     ck.expect(okp and okr, 'C14-D1', q.qual, "url = association_proxy('url_string', 'url') over url_string_id",
               'QueuedURL.url no longer denotes the URLString row referenced by url_string_id: records are looked up and '
               'returned under another URL', 'wpull/database/sqlmodel.py:%s' % getattr(px, 'lineno', q.node.lineno))
+    # the same for the parent / root URL a record is read back with (the scope filters rely on them)
+    for base in ('parent_url', 'root_url'):
+        px_, rel_ = q.class_assigns.get(base), q.class_assigns.get(base + '_string')
+        okp_ = isinstance(px_, ast.Call) and (dotted(px_.func) or '').endswith('association_proxy') and len(px_.args) == 2 \
+            and [U.const_str(repo, mod, a) for a in px_.args] == [base + '_string', 'url']
+        okr_ = False
+        if isinstance(rel_, ast.Call) and (dotted(rel_.func) or '').endswith('relationship') and rel_.args:
+            fk_ = U.kwarg(rel_, 'foreign_keys')
+            fkn_ = [norm_text(e) for e in fk_.elts] if isinstance(fk_, (ast.List, ast.Tuple)) else ([norm_text(fk_)] if fk_ is not None else [])
+            okr_ = sql.model(rel_.args[0]) == 'URLString' and fkn_ in ([base + '_string_id'], ['QueuedURL.%s_string_id' % base])
+        ck.expect(okp_ and okr_, 'C14-D1', q.qual, "%s = association_proxy('%s_string', 'url') over %s_string_id" % (base, base, base),
+                  'QueuedURL.%s is read through another column than the one add_many binds it to: a record comes back with a %s that is '
+                  'not the one stored' % (base, base.replace('_', ' ')), 'wpull/database/sqlmodel.py:%s' % getattr(rel_, 'lineno', q.node.lineno))
 
 
 def sql_modules(repo):
@@ -1382,6 +1395,43 @@ def d2_batch_identity(ctx):
         for x in ast.walk(lp):
             if isinstance(x, (ast.Break, ast.Continue)):
                 ob.fail(N, 'the loop over the batch skips or stops early', x)
+    # the row list handed to the INSERT grows by exactly one row per element of the batch, in order: a list that starts empty and
+    # is append()ed to once on every path through the loop body (a dict keyed by URL lets the LAST duplicate win instead)
+    defs = U.local_defs(fi.node)
+    for c in U.calls(fi.node, attr='execute'):
+        if len(c.args) == 2 and isinstance(c.args[1], ast.Name) and isinstance(c.args[0], ast.Name):
+            qdefs = [v for v, k, s_ in defs.get(c.args[0].id, []) if v is not None]
+            if not any('insert(QueuedURL)' in norm_text(v) for v in qdefs):
+                continue
+            rows = c.args[1].id
+            ds = defs.get(rows, [])
+            okinit = len(ds) == 1 and ds[0][1] == 'assign' and isinstance(ds[0][0], ast.List) and not ds[0][0].elts
+            # one row per element through a comprehension over the batch is the same thing
+            if len(ds) == 1 and ds[0][1] == 'assign' and isinstance(ds[0][0], ast.ListComp) and len(ds[0][0].generators) == 1 \
+                    and isinstance(ds[0][0].generators[0].iter, ast.Name) and ds[0][0].generators[0].iter.id == p and not ds[0][0].generators[0].ifs:
+                continue
+            if not okinit:
+                ob.fail(N, 'the row list `%s` is not a list that starts empty and is filled in the loop over the batch (%s)' % (
+                    rows, '; '.join(norm_text(s_)[:60] for v, k, s_ in ds)), c)
+                continue
+            appended = False
+            for lp in loops:
+                lcfg_nodes = [n for n in ctx.cfg(fi).nodes if n.stmt is not None and any(n.stmt is x for x in ast.walk(lp))]
+                apps = [n for n in lcfg_nodes if any(U.attr_name(a) == 'append' and isinstance(a.func.value, ast.Name) and a.func.value.id == rows
+                                                     for a in F.node_calls(n))]
+                if not apps:
+                    continue
+                appended = True
+                cfg_ = ctx.cfg(fi)
+                head = [n for n in cfg_.nodes if n.kind == 'for' and n.stmt is lp]
+                if head:
+                    # from the loop header into the body and back to the header without an append
+                    p_ = cfg_.find_path(head[0], lambda m: m is head[0], edge_ok=F.normal, stop=lambda m: m in apps,
+                                        first_edges=lambda a, b, k: k in ('T', 'body', 'iter', 'n'))
+                    if p_ is not None and len(p_) > 1:
+                        ob.fail(N, 'an element of the batch can pass the loop without a row being appended', lp)
+            if not appended:
+                ob.fail(N, 'no row is appended to `%s` in the loop over the batch' % rows, c)
     ob.close()
 
 
